@@ -51,6 +51,10 @@ def classify(c):
         return "admitted", None
     if c["class"] == "othererr":
         return "rejected", None
+    if c["class"] == "ctxerr" and c.get("ctx"):
+        # the context handed to Execute was already done and the call came back with the context's error without running
+        # the job: whether such a call must be admitted is not part of C17; it is not judged (but it must not shut the gate)
+        return "neutral", None
     return "bad", "call returned %s without invoking the underlying job" % c["class"]
 
 
@@ -64,6 +68,8 @@ def history_oracle(calls, summary, how):
             adm.append(c)
         elif k == "rejected":
             rej.append(c)
+        elif k == "neutral":
+            pass
         else:
             fails.append({"why": [why], "call": c})
     adm.sort(key=lambda c: c["enter"])
@@ -159,19 +165,21 @@ def hold_failures(binp):
             if fr and classify(fr)[0] != "admitted":
                 why.append("after the holder ended with %s and returned, a fresh call was not admitted" % d["outcome"])
         else:
-            for c in d["calls"]:
+            # sequential / chained: every call is made after the previous one returned, so nothing is in progress
+            for n, c in enumerate(d["calls"]):
                 k, w = classify(c)
-                if k != "admitted":
-                    why.append("sequential call %d (after outcomes %s) was not admitted: %s" % (
-                        c["i"], [x["outcome"] for x in d["calls"][:c["i"]]], w or k))
+                if k not in ("admitted", "neutral"):
+                    prev = ["%s%s" % (x["outcome"], "/ctx-" + x["ctx"] if x.get("ctx") else "") for x in d["calls"][:n]]
+                    why.append("%s call %d was not admitted although no execution was in progress (earlier calls, all returned: %s): %s" % (
+                        d["scenario"], n, prev, w or k))
                     break
         if d.get("max_inflight", 1) > 1:
             why.append("in-flight counter reached %d" % d["max_inflight"])
         if why:
             fails.append({"case": {"kind": "hold", "scenario": d["scenario"], "outcome": d.get("outcome")}, "why": why,
                           "how": "jobsh isolated hold: deterministic scenario (holder blocked inside the job / sequential outcome series)"})
-    if len(recs) != 4:
-        fails.append({"case": {"kind": "hold"}, "why": ["expected 4 scenario records, got %d" % len(recs)], "detail": out[-800:]})
+    if len(recs) != 6:
+        fails.append({"case": {"kind": "hold"}, "why": ["expected 6 scenario records, got %d" % len(recs)], "detail": out[-800:]})
     return fails, recs
 
 
@@ -228,7 +236,7 @@ def linearise(adm, rej):
                 store[k], swap[k + 1] = Fraction(x["ret"]) - Fraction(3, 10), Fraction(y["invoke"]) + Fraction(3, 10)
         else:
             store[k] = Fraction(x["ret"]) - Fraction(3, 10)
-    oc = {"ok": "OOk", "error": "OErr", "panic": "OPanic"}
+    oc = {"ok": "OOk", "error": "OErr", "panic": "OPanic", "nested": "OErr", "nested-wrapped": "OErr"}
     for k, x in enumerate(adm):
         t = x["g"]
         add(swap[k], "ISwap %d" % t)
@@ -315,7 +323,7 @@ def run(ctx):
             stress_info.append({"goroutines": g, "per_goroutine": n, "seed": ctx.seed + k, "admitted": len(parts[0]), "rejected": len(parts[1]),
                                 "max_inflight": summary["max_inflight"]})
     hf, hold = hold_failures(binp)
-    failures += hf
+    failures = hf + failures   # deterministic scenarios first: their replays reproduce without luck
     sf, sched = sched_failures(binp, 700 if quick else 4000)
     failures += sf
     tie_info = []
@@ -343,11 +351,14 @@ def run(ctx):
     cov.update({
         "evaluations": total_calls + sum(len(d.get("during") or d.get("calls") or []) for d in hold) + (sched or {}).get("firings", 0),
         "distinct_nontrivial": total_adm,
-        "rule": "stress: G goroutines x N Execute calls on one isolated job, underlying job with scripted duration (0 / Gosched / 1 ms) and "
-                "outcome (ok / error / panic); every call recorded on a logical clock (atomic counter); oracle: admitted executions "
+        "rule": "stress: G goroutines x N Execute calls on one isolated job, underlying job with scripted duration (0 / Gosched / 1 ms), "
+                "outcome (ok / error / panic / the fail-fast error of another busy isolated job, plain or wrapped) and 4 % of the calls made "
+                "with an already cancelled or expired context; every call recorded on a logical clock (atomic counter); oracle: admitted executions "
                 "pairwise disjoint, every rejected call overlaps an admitted call, a fresh call after quiescence is admitted, outcomes "
                 "not judged for admitted calls. non-trivial = admitted executions (each is followed by a release the next admission depends on). hold: holder "
-                "blocked inside the job, 50 calls rejected, gate reopens after ok/error/panic; sequential series all admitted. sched: "
+                "blocked inside the job, 50 calls rejected, gate reopens after ok/error/panic; sequential series (incl. already cancelled / expired "
+                "contexts and an underlying job that ends with another busy isolated job's fail-fast error, plain and wrapped) and chained / "
+                "nested isolated jobs all admitted. sched: "
                 "real scheduler, 4 ms trigger, 25 ms job. model tie: complete small histories linearised and replayed in Coq.",
         "samples": stress_info[:3] + tie_info[:1],
         "exhaustive": False,
